@@ -411,3 +411,46 @@ def buffer_package(namespace="Buf"):
         protos.append(Protocol("L" + name, [("head", t), ("items", Stream(t)), ("big", Vec(t)), ("last", P("int32"))]))
     defs = [d for d in leaf_defs() if d.name in ("E64", "RT", "RT3", "RS", "G1")]
     return Package(namespace, defs=defs, protocols=protos, dirname=namespace.lower()), types, longs
+
+
+# ------------------------------------------------------------------ varint boundary family
+def varint_package(namespace="Vib"):
+    """One protocol per variable-length integer type (`v: T; items: !stream T; vec: T*; last: int32`) and one for the length
+    prefixes of strings, vectors, maps and dynamic arrays."""
+    ints = ["int16", "uint16", "int32", "uint32", "int64", "uint64", "size"]
+    protos = [Protocol("V" + t, [("v", P(t)), ("items", Stream(P(t))), ("vec", Vec(P(t))), ("last", P("int32"))]) for t in ints]
+    protos.append(Protocol("Vtime", [("t", P("time")), ("d", P("date")), ("dt", P("datetime")), ("ts", Stream(P("time"))), ("last", P("int32"))]))
+    protos.append(Protocol("Vlen", [("s", P("string")), ("b", Vec(P("uint8"))), ("m", Map(P("uint16"), P("uint8"))), ("a", Arr(P("uint8"), 1)),
+                                    ("d", Arr(P("int8"), None)), ("strs", Stream(P("string"))), ("last", P("int32"))]))
+    return Package(namespace, defs=[], protocols=protos, dirname=namespace.lower())
+
+
+def varint_executions(pkg):
+    """{protocol: [(vals, parts)]}: every value at which the encoding of a variable-length integer changes length (2^(7k) - 1,
+    2^(7k), and the zig-zag images of both signs), and every length prefix around 2^7 and 2^14."""
+    out = {}
+    for pr in pkg.protocols:
+        name = pr.name
+        if name in ("Vtime", "Vlen"):
+            continue
+        t = pr.steps[0][1][1]
+        lo, hi = am.INT_RANGE[t]
+        cand = set()
+        for k in range(1, 10):
+            for d in (-1, 0, 1):
+                u = (1 << (7 * k)) + d
+                cand |= {u, u // 2, -(u // 2), -(u // 2) - 1, (u + 1) // 2}
+        vs = sorted(v for v in cand | {0, 1, -1, lo, hi, hi - 1, lo + 1} if lo <= v <= hi)
+        out[name] = [([v, vs, vs[::2], 5], {1: [len(vs)]}) for v in vs[:: max(1, len(vs) // 24)]] + [([vs[-1], vs, vs, 5], {1: [1] * len(vs)})]
+    day = 86400 * 10**9
+    tv = sorted({0, 63, 64, 8191, 8192, 8193, 2**20, 2**20 - 1, 2**27, 2**34 - 1, 2**34, 2**41, day - 1})
+    dv = sorted({0, 63, 64, -64, -65, 8191, 8192, -8192, -8193, 2**20, 2**20 - 1, -(2**19), -(2**19) - 1})
+    dtv = [0, 63, 64, -64, -65, 8191, 8192, -8192, -8193, 2**34 - 1, 2**34, -(2**41), -(2**41) - 1, 2**55, 2**62 - 1, -(2**62), 2**62]
+    out["Vtime"] = [([t_, d_, x_, tv, 5], {3: [len(tv)]}) for t_, d_, x_ in zip(tv + tv, dv + dv, dtv)]
+    lens = [0, 1, 127, 128, 129, 16383, 16384, 16385]
+    ex = []
+    for n in lens:
+        ex.append((["x" * n, [i % 251 for i in range(n)], [(i, i % 7) for i in range(min(n, 300))], ((n,), [i % 200 for i in range(n)]),
+                    ((n, 1) if n else (0, 3), [(i % 100) - 50 for i in range(n)]), ["y" * n, "", "z" * (n // 2)], 5], {5: [3]}))
+    out["Vlen"] = ex
+    return out
